@@ -46,6 +46,8 @@ type Run struct {
 	jobIdx       int
 	opWeights    []int
 	noCycle      bool
+	fixedSteps   int
+	stepsDone    int
 	bigPull      bool
 	noSeek       bool
 	maxMinAge    time.Duration
@@ -1597,13 +1599,17 @@ func RunHist(r *Run, steps int) *Violation {
 		return v
 	}
 	r.header = len(r.T.marks)
+	if r.fixedSteps > 0 {
+		steps = r.fixedSteps // (paired second run: exactly as many operations as the first)
+	}
 	for i := 0; i < steps; i++ {
-		if r.T.Exhausted() {
+		if r.fixedSteps == 0 && r.T.Exhausted() {
 			break
 		}
 		if v := r.step(); v != nil {
 			return v
 		}
+		r.stepsDone++
 	}
 	if v := r.drain(); v != nil {
 		return v
@@ -1690,6 +1696,11 @@ func runPaired(t *testing.T, tape *Tape, w *World, variant string, steps int, ou
 	b := &Run{T: ReplayTape(tape.Frames()), W: w2, M: NewModel(), Sim: S, Variant: "prune", Stats: map[string]int{}, Hashes: map[uint64]bool{}}
 	b.M.KnownSigs = knownSigs
 	b.skipJobs, b.jobDur = true, a.jobDur
+	b.fixedSteps = a.stepsDone
+	if a.stepsDone == 0 {
+		a.Stats["paired_trivial"]++
+		return
+	}
 	if vb := RunHist(b, steps); vb != nil {
 		out.v = viol("C15", "unspliced_run_differs", "the same history without the prune jobs violates the model although the spliced one did not: %v", vb)
 		out.trace = append(out.trace, "==== run without jobs")
